@@ -334,7 +334,7 @@ def gen_case(rng, F, idx: int) -> Dict[str, Any]:
         ty = comps[c][1]
         fam = rng.choice(F[ty][1:])
         v = fam[2]()
-        if not (comps[c][2] == "Identifier" and v == ""):
+        if not ((comps[c][2] == "Identifier" or not comps[c][3]) and v == ""):     # '' in a NOT NULL column is the null violation
             rows[r][c] = v
             labels[r][c] = fam[0]
             case["focus"] = {"row": r, "col": c, "type": ty, "label": fam[0], "doc": fam[1], "value": v,
@@ -419,7 +419,7 @@ def gen_case(rng, F, idx: int) -> Dict[str, Any]:
 
 
 def _drop_col(case, name) -> bool:
-    if name not in case["cols"]:
+    if name not in case["cols"] or len(case["cols"]) <= 1:       # a table without any column is not an input
         return False
     f = case["focus"]
     if f and case["comps"][f["col"]][0] == name:
